@@ -25,6 +25,9 @@ use std::path::PathBuf;
 pub struct CrashX {
     hist: HistX,
     scratch: Scratch,
+    /// run the traced operation with background tasks executed as late as possible
+    lazy: bool,
+    lazy_stats: (u64, u64, u64),
 }
 
 impl CrashX {
@@ -32,6 +35,8 @@ impl CrashX {
         CrashX {
             hist: HistX::new(),
             scratch: Scratch::new("crashx"),
+            lazy: false,
+            lazy_stats: (0, 0, 0),
         }
     }
 }
@@ -104,7 +109,7 @@ impl Trace {
             .iter()
             .find(|e| matches!(&e.kind, vio::Kind::Mark(m) if m == "op_returned_ok"))
             .map(|e| e.seq);
-        let max_stamp = events.iter().map(|e| e.done.unwrap_or(e.seq).max(e.seq)).max().unwrap_or(0);
+        let max_stamp = events.iter().map(|e| e.done.unwrap_or(e.seq).max(e.seq).max(e.performed.unwrap_or(0))).max().unwrap_or(0);
         Trace {
             events,
             returned,
@@ -763,11 +768,15 @@ impl CrashX {
             // close outside the trace: only the open is the operation
             ex.n = None;
         }
+        let lazy = self.lazy;
         let (r, tr) = record(|| {
+            nomt::verif::lazy::enable(lazy);
             let r = ex.step(target, op);
             if r.is_ok() {
                 vio::mark("op_returned_ok");
             }
+            self.lazy_stats = nomt::verif::lazy::stats();
+            nomt::verif::lazy::enable(false);
             r
         });
         let ok = r.is_ok();
@@ -781,8 +790,9 @@ impl CrashX {
 
     fn seam_self_check(pre: &DirImage, tr: &Trace, dir: &std::path::Path) -> Result<(), Violation> {
         let mut img = pre.clone();
-        let mut evs: Vec<&vio::Event> = tr.events.iter().filter(|e| is_mutation(e) && e.done.is_some()).collect();
-        evs.sort_by_key(|e| e.done);
+        // everything that was actually performed, acknowledged to the issuing code or not
+        let mut evs: Vec<&vio::Event> = tr.events.iter().filter(|e| is_mutation(e) && e.performed.is_some()).collect();
+        evs.sort_by_key(|e| e.performed);
         for e in evs {
             apply_event(&mut img, e);
         }
@@ -801,7 +811,10 @@ impl CrashX {
         let mode = case["mode"].as_str().unwrap().to_string();
         let cap = case["cap"].as_u64().unwrap_or(5) as usize;
         let nested = case["nested"].as_bool().unwrap_or(true);
-        let (ex, pre, old, tr, _ok) = match self.run_traced(prop, hist, target) {
+        self.lazy = case["lazy"].as_bool().unwrap_or(false);
+        let traced = self.run_traced(prop, hist, target);
+        self.lazy = false;
+        let (ex, pre, old, tr, _ok) = match traced {
             Ok(x) => x,
             Err(v) => {
                 return Outcome {
@@ -811,12 +824,32 @@ impl CrashX {
                 }
             }
         };
+        if std::env::var("MC_TRACE").is_ok() {
+            for e in tr.events.iter() {
+                eprintln!("TRACE seq={} done={:?} perf={:?} {} [{}] {}", e.seq, e.done, e.performed, ev_desc(e), e.thread, if e.injected { "INJECTED" } else { "" });
+            }
+            eprintln!("TRACE lazy stats {:?}", self.lazy_stats);
+        }
         let new = ex.model.clone();
         let dir = ex.dir.clone();
         let cfg = ex.cfg.clone();
         let uni = ex.uni.clone();
         let mut out = Outcome::default();
         out.nontrivial = tr.events.iter().any(is_mutation);
+        if case["lazy"].as_bool().unwrap_or(false) {
+            if !nomt::verif::lazy::channel_id_works() {
+                out.goals.push("lazy-channel-identity-unavailable");
+            }
+            if self.lazy_stats.0 > 0 {
+                out.goals.push("lazy-task-released-on-demand");
+            }
+            if self.lazy_stats.1 > 0 {
+                out.goals.push("lazy-task-released-on-stall");
+            }
+            if self.lazy_stats.2 > 0 {
+                out.goals.push("lazy-gate-timeout");
+            }
+        }
         // quiesce and self-check the seam
         let _ = ex.finish(Ok(()));
         if let Err(v) = Self::seam_self_check(&pre, &tr, &dir) {
